@@ -21,6 +21,7 @@ type Inst struct {
 type LightClient struct {
 	proof  u.Proof
 	hashes []u.Hash
+	expect []u.Hash // the leaves it should hold (harness-side bookkeeping, used only to resync)
 }
 
 type blockRec struct {
@@ -35,7 +36,8 @@ type blockRec struct {
 
 // Sim drives all implementations through the same history.
 type Sim struct {
-	client *LightClient // non-nil: maintain a cached proof along the history (C07/C08)
+	lastDels []u.Hash
+	client   *LightClient // non-nil: maintain a cached proof along the history (C07/C08)
 	// undoHashes/undoProof, when set before applyBlockData, are what Undo is later called
 	// with for that block (the canonical encoding) instead of the encoding given to Modify
 	undoHashes  []u.Hash
@@ -224,6 +226,7 @@ func (s *Sim) applyBlockData(delIdx []int, delHashes []u.Hash, proof u.Proof, ad
 	emit("block %s %s %s %s", hxs(delHashes), hxs(addHashes), us(proof.Targets), hxs(proof.Proof))
 	emitStumpUpdate(before, delHashes, addHashes, proof, res, uerr, ud, s.stump)
 	rec.ud, rec.numAfter = ud, s.stump.NumLeaves
+	s.lastDels = delHashes
 	if s.client != nil && res == "ok" && uerr == nil {
 		s.clientUpdate(addHashes, proof.Targets, ud)
 	}
